@@ -44,6 +44,8 @@ THEOREMS = [
     "Verif.C16.generic_model_is_executable_model",
     "Verif.C16.baum_welch_step_monotone",
     "Verif.C16.baum_welch_monotone",
+    "Verif.C16.dwellsChecked_spec",
+    "Verif.C16.initCheck_spec",
 ]
 RULE = (
     "corpus (zero-probability initial states/transitions, the all-impossible model, constant paths, single runs) + "
@@ -85,6 +87,13 @@ RULE = (
     "object (same clauses as the manual E/M steps).  A private function that is not reachable under its anchored name gives "
     "'?' observations (never compared, listed in coverage.private_ties) and leaves its public twin: the chain for every T, "
     "extract_dwell_times for the label sequences a model can decode. "
+    "Round D: every forward-backward run of the Lean model also reports whether the model has probability weights and positive "
+    "emission densities and, if so, that every c_t > 0, gamma, xi >= 0 and occupancies are positive (theorems scaling_positive, "
+    "posteriors_nonneg, occupancy_positive), compared with the signs of the code's arrays; every forward-backward case with "
+    "K^T <= 243 and T >= 2 also evaluates the exact likelihood (sum over ALL paths) before and after re-estimating pi, A with the "
+    "emission table kept (op c16.emtab, theorem em_monotone_tables) against forward_backward of the model holding the pi', A' that "
+    "ClassicHmm.update returned with the old emissions; every label sequence also gives the number of samples all dwells cover "
+    "together (op c16.dwelltot, theorem dwell_counts_conserve). "
     "Non-trivial: decoded path with >=2 states; forward-backward with K>=2 and T>=2; EM with K>=2 and >=2 "
     "iterations; label sequence with >=2 runs; call sequence with >=2 calls and a trace with >=2 runs; malformed input "
     "that must raise."
